@@ -109,21 +109,21 @@ func TierB(tier string) []Spec {
 	if tier != "quick" {
 		add(Spec{Name: "B1/stake delegate | Candidate,WaitList", World: "stake", Block: PBlock{Txs: []string{"d1 delegate 100 BIP to c1"}}, CheckTx: true,
 			Threads: [][]string{{"Candidate", "WaitList"}}, Bound: 1})
-		add(Spec{Name: "B1/stake unbond at the payout boundary | Candidates,Address", World: "stake", Prefix: []PBlock{{Txs: []string{"d1 delegate 100 BIP to c1"}}},
-			Block: PBlock{Txs: []string{"d1 unbond 100 of 3333.3 BIP from c1"}}, Threads: [][]string{{"Candidates", "Address"}}, Bound: 1})
-		add(Spec{Name: "B1/coin create pool + fee through pool | 2 query threads", World: "coin",
-			Block:   PBlock{Txs: []string{"A create pool COINA/TOKB", "A send 10 TOKB gas TOKB (pool route)"}},
-			Threads: [][]string{{"BestTradeNew"}, {"SwapPools"}}, Bound: 1})
+		add(Spec{Name: "B1/stake unbond at the payout boundary | Candidate,MissedBlocks", World: "stake", Prefix: []PBlock{{Txs: []string{"d1 delegate 100 BIP to c1"}}},
+			Block: PBlock{Txs: []string{"d1 unbond 100 of 3333.3 BIP from c1"}}, Threads: [][]string{{"Candidate", "MissedBlocks"}}, Bound: 1})
+		add(Spec{Name: "B1/coin create pool | 2 query threads BestTradeNew / SwapPoolNew", World: "coin",
+			Block:   PBlock{Txs: []string{"A create pool COINA/TOKB"}},
+			Threads: [][]string{{"BestTradeNew"}, {"SwapPoolNew"}}, Bound: 1})
 		add(Spec{Name: "B1/coin recreate COINA | CoinInfo,EstimateCoinBuy", World: "coin", Block: PBlock{Txs: []string{"A recreate COINA"}}, CheckTx: true,
 			Threads: [][]string{{"CoinInfoById", "EstimateCoinBuy"}}, Bound: 1})
 		add(Spec{Name: "B1/coin mint TOKB | CoinInfo,SwapPoolProvider", World: "coin", Block: PBlock{Txs: []string{"A mint 10 TOKB (to max)"}}, CheckTx: true,
 			Threads: [][]string{{"CoinInfo", "SwapPoolProvider"}}, Bound: 1})
 		add(Spec{Name: "B1/coin sell all MAXED gas MAXED | EstimateCoinSellAll,BestTradeOut", World: "coin", Block: PBlock{Txs: []string{"B sell all MAXED gas MAXED"}}, CheckTx: true,
 			Threads: [][]string{{"EstimateCoinSellAll", "BestTradeOut"}}, Bound: 1})
-		add(Spec{Name: "B1/pay redeem check | Addresses,Frozen", World: "pay", Block: PBlock{Txs: []string{"B redeems A's check"}}, CheckTx: true,
-			Threads: [][]string{{"Addresses", "FrozenCoin"}}, Bound: 1})
-		add(Spec{Name: "B1/pay lock due first block | Frozen,Address", World: "pay", Block: PBlock{Txs: []string{"A lock 10 BIP due+1 (due = first block)"}}, CheckTx: true,
-			Threads: [][]string{{"Frozen", "Address"}}, Bound: 1})
+		add(Spec{Name: "B1/pay redeem check | Addresses", World: "pay", Block: PBlock{Txs: []string{"B redeems A's check"}}, CheckTx: true,
+			Threads: [][]string{{"Addresses"}}, Bound: 1})
+		add(Spec{Name: "B1/pay lock due first block | FrozenCoin", World: "pay", Block: PBlock{Txs: []string{"A lock 10 BIP due+1 (due = first block)"}}, CheckTx: true,
+			Threads: [][]string{{"FrozenCoin"}}, Bound: 1})
 		add(Spec{Name: "B1/pay multisig edit | Address,Candidates", World: "pay", Block: PBlock{Txs: []string{"M edit multisig thr3 by[A,B]"}}, CheckTx: true,
 			Threads: [][]string{{"Addresses", "Candidates"}}, Bound: 1})
 		add(Spec{Name: "B1/bookdisk taker buys TOK | SwapPools,LimitOrders", World: "bookdisk", Block: PBlock{Txs: []string{"taker buys"}},
@@ -134,12 +134,12 @@ func TierB(tier string) []Spec {
 			Block: PBlock{Env: 1}, Threads: [][]string{{"LimitOrdersOfPool", "SwapPools"}}, Bound: 1})
 		add(Spec{Name: "B1/stake move stake | Candidate,Frozen", World: "stake", Block: PBlock{Txs: []string{"d1 move 100 BIP c1->c2"}}, CheckTx: true,
 			Threads: [][]string{{"Candidate", "Frozen"}}, Bound: 1})
-		add(Spec{Name: "B1/stake set candidate off at the boundary | Candidates,MissedBlocks", World: "stake", Prefix: []PBlock{{}},
-			Block: PBlock{Txs: []string{"o3 sets c3 off (owner)"}}, Threads: [][]string{{"Candidates", "MissedBlocks"}}, Bound: 1})
-		add(Spec{Name: "B1/stake declare candidacy | Candidates,Addresses", World: "stake", Block: PBlock{Txs: []string{"d2 declares candidate 15 with 1200 BIP"}}, CheckTx: true,
-			Threads: [][]string{{"Candidates", "Addresses"}}, Bound: 1})
-		add(Spec{Name: "B1/stake evidence block | Candidates,WaitList", World: "stake", Block: PBlock{Env: 3},
-			Threads: [][]string{{"Candidates", "WaitList"}}, Bound: 1})
+		add(Spec{Name: "B1/stake set candidate off at the boundary | Candidate,MissedBlocks", World: "stake", Prefix: []PBlock{{}},
+			Block: PBlock{Txs: []string{"o3 sets c3 off (owner)"}}, Threads: [][]string{{"Candidate", "MissedBlocks"}}, Bound: 1})
+		add(Spec{Name: "B1/stake declare candidacy | Candidates", World: "stake", Block: PBlock{Txs: []string{"d2 declares candidate 15 with 1200 BIP"}}, CheckTx: true,
+			Threads: [][]string{{"Candidates"}}, Bound: 1})
+		add(Spec{Name: "B1/stake evidence block | Candidate,WaitList", World: "stake", Block: PBlock{Env: 3},
+			Threads: [][]string{{"Candidate", "WaitList"}}, Bound: 1})
 	}
 	// ---- bound 2 on a single ABCI call against a single handler call
 	add(Spec{Name: "B2/coin DeliverTx(create pool) | BestTradeNew", World: "coin", Block: PBlock{Txs: []string{"A create pool COINA/TOKB"}},
@@ -157,12 +157,12 @@ func TierB(tier string) []Spec {
 	if tier != "quick" {
 		add(Spec{Name: "B2/pay DeliverTx(send, fee through pool) | EstimateCoinSell", World: "pay", Block: PBlock{Txs: []string{"A->B 10 BIP gas TOKA"}},
 			Threads: [][]string{{"EstimateCoinSell"}}, Span: "DeliverTx", Bound: 2})
-		add(Spec{Name: "B2/pay Commit(send) | Address", World: "pay", Block: PBlock{Txs: []string{"A->B 10 BIP gas TOKA"}},
-			Threads: [][]string{{"Address"}}, Span: "Commit", Bound: 2})
-		add(Spec{Name: "B2/stake EndBlock(payout boundary) | Candidates", World: "stake", Prefix: []PBlock{{Txs: []string{"d1 delegate 100 BIP to c1"}}},
-			Block: PBlock{}, Threads: [][]string{{"Candidates"}}, Span: "EndBlock", Bound: 2})
-		add(Spec{Name: "B2/stake Commit(payout boundary) | Address", World: "stake", Prefix: []PBlock{{Txs: []string{"d1 delegate 100 BIP to c1"}}},
-			Block: PBlock{}, Threads: [][]string{{"Address"}}, Span: "Commit", Bound: 2})
+		add(Spec{Name: "B2/pay Commit(send) | SwapPool", World: "pay", Block: PBlock{Txs: []string{"A->B 10 BIP gas TOKA"}},
+			Threads: [][]string{{"SwapPool"}}, Span: "Commit", Bound: 2})
+		add(Spec{Name: "B2/stake EndBlock(payout boundary) | Candidate", World: "stake", Prefix: []PBlock{{Txs: []string{"d1 delegate 100 BIP to c1"}}},
+			Block: PBlock{}, Threads: [][]string{{"Candidate"}}, Span: "EndBlock", Bound: 2})
+		add(Spec{Name: "B2/stake Commit(payout boundary) | Candidate", World: "stake", Prefix: []PBlock{{Txs: []string{"d1 delegate 100 BIP to c1"}}},
+			Block: PBlock{}, Threads: [][]string{{"Candidate"}}, Span: "Commit", Bound: 2})
 		add(Spec{Name: "B2/book DeliverTx(cancel) | LimitOrders", World: "book", Prefix: []PBlock{{Txs: []string{"m1 sale 1000/1000 (price 1)"}}},
 			Block: PBlock{Txs: []string{"m1 cancels order 1"}}, Threads: [][]string{{"LimitOrders"}}, Span: "DeliverTx", Bound: 2})
 		add(Spec{Name: "B2/coin DeliverTx(recreate COINA) | CoinInfo", World: "coin", Block: PBlock{Txs: []string{"A recreate COINA"}},
